@@ -28,7 +28,7 @@ ALLOWED_RAISES = {
     ("Parser.parse", "DynamicDisambiguationConflict"): "only with a dynamic_filter (dominated by `self.dynamic_filter`)",
     ("Parser.parse", "<last recorded error>"): "re-raises self.errors[-1] (SyntaxError objects only, R10.errors-are-syntax-errors)",
     ("GLRParser.parse", "<last recorded error>"): "re-raises self.errors[-1]",
-    ("Parser._next_token", "DisambiguationError"): "lexical ambiguity; in GLR reachable only through error recovery",
+    ("Parser._next_token", "DisambiguationError"): "lexical ambiguity; LR only (not reachable from GLRParser.parse, checked)",
     ("Parser._token_recognition", "TypeError"): "re-raise of a user recogniser's TypeError (inside the handler)",
     ("Parser._skipws", "ParserInitError"): "non-text input with ws set (inside the TypeError handler)",
     ("visitor", "LoopError"): "only from the debug print of forest.solutions",
@@ -112,7 +112,7 @@ def rule_discipline(rep):
                 todo = [entry]
                 while todo:
                     f = todo.pop()
-                    if f in seen2 or f is rec:
+                    if f in seen2:
                         continue
                     seen2[f] = True
                     for g_, c, kind in cg.callees(f):
@@ -121,10 +121,10 @@ def rule_discipline(rep):
                         todo.append(g_)
                 r.check(
                     nt not in seen2,
-                    "GLR: _next_token (DisambiguationError) reachable only through error recovery",
+                    "GLR: _next_token (the LR fetch that raises DisambiguationError) is not reachable, recovery included",
                     "GLRParser.parse:DisambiguationError-guard",
-                    "GLRParser.parse can reach _next_token (which raises DisambiguationError) outside error "
-                    "recovery: GLR must pursue every lexical alternative instead",
+                    "GLRParser.parse can reach _next_token (which raises DisambiguationError on lexical ambiguity): "
+                    "GLR must pursue every lexical alternative instead, also where recovery resumes",
                     node=nt.node,
                 )
                 f, g = func_cfg(repo, "parglare.glr.GLRParser.parse")
